@@ -83,6 +83,13 @@ pub mod verif {
 	pub fn recover_key_prefix(index_bits: u8, chunk: u64, entry: u64) -> [u8; 32] {
 		crate::index::IndexTable::verif_recover_key_prefix(index_bits, chunk, entry)
 	}
+
+	pub use crate::btree::verif::{separator_codec, NodeDump, TreeDump};
+
+	/// Read-only dump of the btree of column `col` as seen through the log overlay.
+	pub fn btree_dump(db: &crate::Db, col: crate::ColId) -> crate::Result<TreeDump> {
+		db.verif_btree_dump(col)
+	}
 }
 
 pub const KEY_SIZE: usize = 32;
